@@ -1,12 +1,13 @@
 import PbVerif.Lemmas.Whittaker
 import PbVerif.Lemmas.Kron2d
 import PbVerif.Lemmas.Jbcd
+import PbVerif.Lemmas.LoopS
 /-! C06 — Whittaker baselines solve the documented penalised least-squares system: the band arrays
 the methods assemble DENOTE the documented matrices, for every size, order, weight vector and
 storage layout (the solvers themselves are outside the model: each of their outputs is certified by an
 exact backward error in the correspondence). -/
 namespace PbVerif.C06
-open PbVerif.Banded PbVerif.Whittaker PbVerif.Lemmas
+open PbVerif.Banded PbVerif.Whittaker PbVerif.Lemmas PbVerif.Loop
 
 theorem std_asm_den_lower (n d : Nat) (lam : Rat) (w : List Rat) (hw : w.length = n) (i j : Nat) (hi : i < n) (hj : j < n) :
     denLower (asmStd n d lam w true false) i j = docStd n d lam w i j := Lemmas.std_asm_den_lower n d lam w hw i j hi hj
@@ -99,5 +100,64 @@ theorem jbcd_signal_ne_documented (n d : Nat) (gamma : Rat) (hg : gamma ≠ 0) (
 example : asmJbcdSignal 4 1 3 true false = [[4, 7, 7, 4], [-3, -3, -3, 0]] ∧
     asmJbcdBaseline 4 1 (1/2) 3 false false = [[0, -6, -6, -6], [8, 14, 14, 8], [-6, -6, -6, 0]] := by decide +kernel
 example : denLower (asmJbcdSignal 4 1 3 true false) 0 0 = 4 ∧ docJbcd 4 1 (2 * 3) 1 0 0 = 7 := by decide +kernel
+
+/-! ### which weights the returned baseline was solved with (`Model/LoopS`: the loops with their state, abstract `solve` / `rule`) -/
+
+/-- **`converged_pair_solves`** — single-loop skeleton (asls, iasls, airpls, arpls, drpls, iarpls, aspls, psalsa, derpsalsa, lsrpls and
+their spline / 2-D versions): when the loop stops because the recorded difference fell below `tol` (at pass `len − 1`) or because the
+rule signalled the early exit (at pass `len`), the returned state (`weights`, and `alpha` for aspls) is the one the returned baseline
+was solved with, and it is the iterate of that pass -/
+theorem converged_pair_solves {S B : Type} (solve : S → B) (rule : B → Nat → S → S × Bool × Rat) (tol : Rat) (budget : Nat) (s0 : S) :
+    let R := run solve rule tol budget s0
+    ((R.stop = .converged ∨ R.stop = .early) → R.base = some (solve R.state)) ∧
+    (R.stop = .converged → 1 ≤ R.len ∧ R.state = stateSeq solve rule s0 (R.len - 1)) ∧
+    (R.stop = .early → R.state = stateSeq solve rule s0 R.len) := by
+  obtain ⟨-, h1, h2, -⟩ := run_spec solve rule tol s0 budget
+  refine ⟨fun h => ?_, fun h => ⟨(h1 h).1, (h1 h).2.1⟩, fun h => (h2 h).1⟩
+  rcases h with h | h
+  · exact (h1 h).2.2
+  · exact (h2 h).2
+/-- … at exhaustion (`budget` passes done, `budget > 0`) the returned baseline was solved with the PREVIOUS iterate and the returned
+state is the freshly computed one, `rule(returned baseline)` — not a solve pair in general (what C09 `exhausted_weights_rule` uses) -/
+theorem exhausted_returns_fresh_state {S B : Type} (solve : S → B) (rule : B → Nat → S → S × Bool × Rat) (tol : Rat) (budget : Nat) (s0 : S)
+    (hb : 0 < budget) (hx : (run solve rule tol budget s0).stop = .exhausted) :
+    (run solve rule tol budget s0).len = budget ∧
+    (run solve rule tol budget s0).base = some (solve (stateSeq solve rule s0 (budget - 1))) ∧
+    (run solve rule tol budget s0).state
+      = (rule (solve (stateSeq solve rule s0 (budget - 1))) (budget - 1) (stateSeq solve rule s0 (budget - 1))).1 := by
+  obtain ⟨-, -, -, h3⟩ := run_spec solve rule tol s0 budget
+  obtain ⟨a, b, c⟩ := h3 hx
+  refine ⟨a, c hb, ?_⟩
+  rw [b]
+  obtain ⟨m, rfl⟩ : ∃ m, budget = m + 1 := ⟨budget - 1, by omega⟩
+  rfl
+/-- the loop with state takes exactly the decisions of the skeleton `Loop.runLoop` that C01 / C09 reason about -/
+theorem stateful_refines_skeleton {S B : Type} (solve : S → B) (rule : B → Nat → S → S × Bool × Rat) (tol : Rat) (budget : Nat) (s0 : S) :
+    ((run solve rule tol budget s0).len, (run solve rule tol budget s0).stop)
+      = runLoop budget tol (dOf solve rule s0) (exitOf solve rule s0) := (run_spec solve rule tol s0 budget).1
+/-- brpls (nested loops): the returned `baseline` is `solve(params['weights'])` (`baseline_weights`) whatever the two loops decide —
+unless the rule signals the early exit on the very first solve, when the data themselves are returned (`none`) -/
+theorem brpls_pair_solves {W B P : Type} (solve : W → B) (rule : B → P → W × Bool) (conv : Option B → B → Bool) (crit : P → W → Bool → Bool)
+    (nextBeta : W → P) (maxIter maxIter2 : Nat) (beta0 : P) (w0 : W) :
+    let r := brRun solve rule conv crit nextBeta maxIter maxIter2 beta0 w0
+    (r.1 = none ∨ r.1 = some (solve r.2)) ∧ ((rule (solve w0) beta0).2 = false → r.1 = some (solve r.2)) :=
+  brRun_pair solve rule conv crit nextBeta maxIter maxIter2 beta0 w0
+/-- jbcd: the returned baseline is the baseline system of the LAST pass solved with the returned signal (`params['signal']`), with the
+parameters `γ·gamma_mult^(len−1)`, `β·beta_mult^(len−1)` of that pass -/
+theorem jbcd_pair_solves {Sg V P : Type} (solveS : P → V → Sg) (solveB : P → Sg → V) (crit : Sg → Sg → V → V → Bool) (gm bm : P → P)
+    (budget : Nat) (hb : 0 < budget) (s : JbSt Sg V P) :
+    1 ≤ (jbRun solveS solveB crit gm bm budget 0 s none).2.1 ∧ (jbRun solveS solveB crit gm bm budget 0 s none).2.1 ≤ budget ∧
+    ∃ v sg, (jbRun solveS solveB crit gm bm budget 0 s none).1
+        = some (v, sg, gm^[(jbRun solveS solveB crit gm bm budget 0 s none).2.1 - 1] s.gamma,
+                 bm^[(jbRun solveS solveB crit gm bm budget 0 s none).2.1 - 1] s.beta) ∧
+      v = solveB (bm^[(jbRun solveS solveB crit gm bm budget 0 s none).2.1 - 1] s.beta) sg :=
+  jbRun_top solveS solveB crit gm bm budget hb s
+
+example : (let r := runIdx 5 (1/10) (fun k => 1 / ((k : Rat) + 1)) (fun _ => false); (r.state, r.base, r.len, r.stop)) = (5, some 4, 5, .exhausted) ∧
+    (let r := runIdx 20 (1/10) (fun k => 1 / ((k : Rat) + 1)) (fun _ => false); (r.state, r.base, r.len, r.stop)) = (10, some 10, 11, .converged) ∧
+    (let r := runIdx 20 (1/10) (fun k => 1 / ((k : Rat) + 1)) (fun k => k == 3); (r.state, r.base, r.len, r.stop)) = (3, some 3, 3, .early) := by decide +kernel
+example : brIdx 3 2 (fun t => if t = 2 then 1 else 0) (fun w => w == 3) = (some 1, 1) ∧
+    brIdx 3 2 (fun _ => 2) (fun _ => true) = (none, 0) ∧ brIdx 0 1 (fun _ => 0) (fun _ => false) = (some 1, 1) := by decide +kernel
+example : jbIdx 4 (fun k => k == 2) = (some (2, 2, 2, 2), 3, .converged) ∧ jbIdx 2 (fun _ => false) = (some (1, 1, 1, 1), 2, .exhausted) := by decide +kernel
 
 end PbVerif.C06
